@@ -321,3 +321,18 @@ def none_state(p, name):
     return None
 
 
+
+
+def literals(conds):
+    """Path conditions as canonical (term, truth) literals: not/and/or flattened, `ne` turned into a negated `eq`."""
+    from .interp import _literals
+    out = []
+    for c, pol, _ in conds:
+        _literals(c, pol, out)
+    canon = []
+    for c, pol in out:
+        a = c.single_atom() if isinstance(c, Poly) else None
+        if a is not None and is_app(a, 'ne') and len(a[2]) == 2:
+            c, pol = nf.app('eq', a[2][0], a[2][1]), not pol
+        canon.append((c, pol))
+    return canon
